@@ -40,10 +40,32 @@ class Ctx:
             return tomllib.load(f)
 
 
+THOROUGH_EXTRA_CONFIGS = ['all']   # cargo feature sets that build offline besides `default` (server == default; client alone does not compile)
+
+
 def run_property(prop, tier, replay=None, features='default'):
+    """quick: the rules of the property over the default feature configuration.
+    thorough: the same rules (plus a module's run_thorough, when it has one) over every feature configuration that
+    builds offline; the obligations of all configurations go into one report, tagged with the configuration."""
     mod = importlib.import_module('analysis.rules.' + prop)
     ctx = Ctx(prop, tier, features)
     mod.run(ctx)
-    if tier == 'thorough' and hasattr(mod, 'run_thorough'):
-        mod.run_thorough(ctx)
+    if tier == 'thorough':
+        if hasattr(mod, 'run_thorough'):
+            mod.run_thorough(ctx)
+        configs = [{'features': features, 'obligations': len(ctx.r.obls), **ctx.r.extra.get('facts', {})}]
+        for feat in THOROUGH_EXTRA_CONFIGS:
+            if feat == features:
+                continue
+            n0 = len(ctx.r.obls)
+            ctx2 = Ctx(prop, tier, feat)
+            facts2 = ctx2.r.extra.get('facts', {})
+            ctx2.r = ctx.r
+            mod.run(ctx2)
+            if hasattr(mod, 'run_thorough'):
+                mod.run_thorough(ctx2)
+            for o in ctx.r.obls[n0:]:
+                o.detail = ('[features=%s] ' % feat) + (o.detail or '')
+            configs.append({'features': feat, 'obligations': len(ctx.r.obls) - n0, **facts2})
+        ctx.r.extra['configurations'] = configs
     return ctx.r.finish()
